@@ -2,7 +2,7 @@
    assumptions printed.  The functions m_* / tag_* / is_* are regenerated from nan_boxed.rs. *)
 From Coq Require Import NArith ZArith Bool List Lia.
 From Common Require Import Bits.
-From C12 Require Import Variant Model_C12 Proofs_C12.
+From C12 Require Import Variant Model_C12 Proofs_C12 Decode_C12.
 From Gen Require Import NanBits.
 Local Open Scope N_scope.
 
@@ -87,6 +87,26 @@ Theorem box_injective : forall v1 v2 w, wf v1 -> wf v2 -> box v1 = Some w -> box
 Proof. exact box_injective_lemma. Qed.
 Check box_injective : forall v1 v2 w, wf v1 -> wf v2 -> box v1 = Some w -> box v2 = Some w -> canon v1 = canon v2.
 Print Assumptions box_injective.
+
+(* decode side, for EVERY word (reachable from a constructor or not): the kind predicates, get_type, the
+   exact-value tests and as_variant classify consistently -- the variant read back has exactly the kind whose
+   predicate holds, so no word is an object under one accessor and a number under another *)
+Theorem decode_consistent : forall w,
+  kobs_word w = kobs_variant (m_as_variant w) /\
+  m_get_type w = type_of_variant (m_as_variant w) /\
+  (m_is_float64 w = true -> m_as_variant w = VFloat64 w) /\
+  (m_is_undefined w = true -> m_as_variant w = VUndefined) /\
+  (m_is_null w = true -> m_as_variant w = VNull) /\
+  (forall b, m_as_bool w = Some b -> m_as_variant w = VBoolean b).
+Proof. exact decode_consistent_lemma. Qed.
+Check decode_consistent : forall w,
+  kobs_word w = kobs_variant (m_as_variant w) /\
+  m_get_type w = type_of_variant (m_as_variant w) /\
+  (m_is_float64 w = true -> m_as_variant w = VFloat64 w) /\
+  (m_is_undefined w = true -> m_as_variant w = VUndefined) /\
+  (m_is_null w = true -> m_as_variant w = VNull) /\
+  (forall b, m_as_bool w = Some b -> m_as_variant w = VBoolean b).
+Print Assumptions decode_consistent.
 
 (* non-vacuity: the hypotheses are met by concrete values of every kind *)
 Example wf_examples :
